@@ -142,7 +142,7 @@ def run(chk):
     if thorough:
         scopes += [
             ("decision_w5", cfg("decision_w5", ConfigMode='"all1"', W=5, **dec), 8, {}),
-            ("faults_3conn_2cfg", cfg("faults_3conn_2cfg", Conns="{c1,c2,c3}", sym=True, MaxFaults=5, MaxGets=2, ConfigMode='"fault"',
+            ("faults_3conn_2cfg", cfg("faults_3conn_2cfg", Conns="{c1,c2,c3}", sym=True, MaxFaults=5, MaxGets=1, ConfigMode='"fault"',
                                       Paths='{"metrics","health"}'), 8, {"Bump"}),
             ("liveness_3conn", cfg("liveness_3conn", spec="FairSpec", Conns="{1,2,3}", MaxFaults=3, MaxGets=2, props="LiveServed",
                                    inv="TypeOK InvDecision InvNoLeak InvListening InvServable"), 8, {"Bump"}),
